@@ -59,3 +59,25 @@ pub fn hex_list(items: &[Vec<u8>]) -> String {
         .collect::<Vec<_>>()
         .join(",")
 }
+
+
+/// the loopback address this process uses for every listener and every connection. Each harness process takes its own
+/// address in 127.0.0.0/8 (from its pid and the clock): sockets left in TIME_WAIT by earlier processes then never stand in
+/// the way of `bind(addr, 0)` — with one shared 127.0.0.1, two large runs in a row used up every ephemeral port
+/// (EADDRINUSE) and cases were lost.
+pub fn lo() -> &'static str {
+    static LO: std::sync::OnceLock<String> = std::sync::OnceLock::new();
+    LO.get_or_init(|| {
+        if std::env::var_os("LVH_LOOPBACK_DEFAULT").is_some() {
+            return "127.0.0.1".to_string();
+        }
+        let pid = std::process::id();
+        let t = std::time::SystemTime::now().duration_since(std::time::UNIX_EPOCH).map(|d| d.subsec_nanos()).unwrap_or(0);
+        let addr = format!("127.{}.{}.{}", 1 + (pid >> 8) % 250, pid % 256, 1 + (t / 1000) % 250);
+        // fall back to 127.0.0.1 where the other loopback addresses cannot be bound
+        match std::net::TcpListener::bind((addr.as_str(), 0)) {
+            Ok(_) => addr,
+            Err(_) => "127.0.0.1".to_string(),
+        }
+    })
+}
